@@ -143,6 +143,8 @@ func decodeEntry(entry string, key, ver int16, stream []byte, budget time.Durati
 		return decodeUnmarshal(key, stream)
 	case "describegroups":
 		return decodeDescribeGroups(key, stream, budget)
+	case "client":
+		return decodeClient(key, ver, stream, budget)
 	case "transport", "transport-sasl0", "transport-sasl1":
 		return decodeTransport(entry, key, ver, stream, budget)
 	}
@@ -210,7 +212,7 @@ func TestWorker(t *testing.T) {
 		el := time.Since(t0)
 		runtime.ReadMemStats(&m1)
 		timer.Stop()
-		if sinceGC++; sinceGC >= gcEvery || m1.HeapAlloc > gcHeap || strings.HasPrefix(rq.Entry, "transport") {
+		if sinceGC++; sinceGC >= gcEvery || m1.HeapAlloc > gcHeap || isTransportEntry(rq.Entry) {
 			runtime.GC()
 			sinceGC = 0
 		}
